@@ -1055,24 +1055,42 @@ func (g *gen) converge(i int, seed uint64) *scenario {
 	for _, k := range sc.Ctl.Kids {
 		healthy = append(healthy, extOp{Op: "healthy-all", APIVersion: k.APIVersion, Kind: k.Kind, Data: J{"reason": "Healthy"}})
 	}
-	switch r.Intn(8) {
-	case 0:
+	// hook programs with a known finding (echo, integral float, parent named as owner) are kept to a small
+	// share of the family: a case that carries such a feature is excused for that finding's symptom
+	if sc.Hook.PlainOwnerRef && r.Chance(5, 8) {
+		sc.Hook.PlainOwnerRef = false
+		kept := sc.Features[:0]
+		for _, f := range sc.Features {
+			if f != "hook-sets-plain-owner-ref" {
+				kept = append(kept, f)
+			}
+		}
+		sc.Features = kept
+	}
+	switch r.Intn(16) {
+	case 0, 1:
 		sc.Hook.Kind = "ordered"
 		sc.Features = append(sc.Features, "hook-ordered")
-	case 1:
-		sc.Hook.Kind = "echo"
-		sc.Features = append(sc.Features, "hook-echo")
 	case 2:
-		if len(sc.Hook.Children) > 0 {
+		if !sc.Hook.PlainOwnerRef {
+			sc.Hook.Kind = "echo"
+			sc.Features = append(sc.Features, "hook-echo")
+		}
+	case 3:
+		if len(sc.Hook.Children) > 0 && !sc.Hook.PlainOwnerRef {
 			sc.Hook.IntegralFloat = true // an integral float: replicas 1.0 on the wire
 			sc.Features = append(sc.Features, "integral-float")
 		}
-	case 3:
+	case 4, 5:
 		sc.Ctl.SSA = true
 		sc.Features = append(sc.Features, "ssa")
-	case 4:
+	case 6, 7:
 		sc.Hook.Kind = "echo-meta"
 		sc.Features = append(sc.Features, "hook-echo-annotations")
+	}
+	if sc.Hook.Kind != "ordered" && r.Bool() {
+		healthy = nil // nobody writes a status into the children: they stay as the controller made them
+		sc.Features = append(sc.Features, "children-report-no-status")
 	}
 	unmatch := false
 	if r.Chance(1, 8) && sc.Ctl.CtlSelector == nil {
